@@ -376,8 +376,17 @@ func Solve(name, body string, timeoutS int, wantModel bool, all bool) SolveResul
 	}
 	res := SolveResult{Status: "unknown", All: map[string]string{}}
 	got := 0
+	var grace <-chan time.Time
 	for got < len(usable) {
-		a := <-ch
+		var a ans
+		select {
+		case a = <-ch:
+		case <-grace:
+			// cross-checking mode: the remaining solvers had 30 s more to disagree with the first answer
+			cancel()
+			got = len(usable)
+			continue
+		}
 		got++
 		res.All[a.solver] = a.status
 		if a.status == "error" && res.Raw == "" {
@@ -398,6 +407,9 @@ func Solve(name, body string, timeoutS int, wantModel bool, all bool) SolveResul
 			if !all {
 				cancel()
 				break
+			}
+			if grace == nil {
+				grace = time.After(30 * time.Second)
 			}
 		}
 	}
